@@ -19,6 +19,7 @@ import XzVerif.Model.LazyDec
 import XzVerif.Model.XzWF
 import XzVerif.Model.LazyDec2
 import XzVerif.Model.LazyXz
+import XzVerif.Model.Src
 /-
   driver — line protocol around the executable definitions of Spec and Model.
   One request per line on stdin, one reply line on stdout.  Core-only, so it links.
@@ -91,6 +92,37 @@ def parseOp (s : String) : Option Lzma.RawOp :=
       | _, _ => none
     | _ => none
   | _ => none
+
+/-- fragmentation of a model source: mode 0 everything asked for, 1 one byte per Read, 2 varying short reads -/
+def srcFrag (mode seed : Nat) (i : Nat) : Nat :=
+  match mode with
+  | 0 => 1000000000
+  | 1 => 1
+  | _ => (((seed * 31 + i) * 2654435761) % 4294967296) / 65536 % 97 + 1
+
+def srcStName : Src.St → String
+  | .ok => "ok" | .eof => "EOF" | .unexpectedEOF => "UnexpectedEOF" | .src => "src" | .noData => "noData"
+
+/-- the accessor operations of Model/Src.lean on one source; per operation `<hex>:<status>` -/
+def srcOps : Src.S → List String → List String
+  | _, [] => []
+  | s, op :: rest =>
+    let hx (b : ByteArray) : String := if b.size = 0 then "-" else hex b
+    match op.toList with
+    | 'F' :: n => match (String.ofList n).toNat? with
+      | some n => let (s', out, st) := Src.readFull s n; s!"{hx out}:{srcStName st}" :: srcOps s' rest
+      | none => ["bad-op"]
+    | ['B'] => let (s', b, st) := Src.readByte s
+      (match b with | some b => s!"{hx (ByteArray.empty.push b)}:{srcStName st}" | none => s!"-:{srcStName st}") :: srcOps s' rest
+    | 'C' :: n => match (String.ofList n).toNat? with
+      | some n => let (s', out, st) := Src.copyN s n; s!"{hx out}:{srcStName st}" :: srcOps s' rest
+      | none => ["bad-op"]
+    | 'L' :: a => match (String.ofList a).splitOn "/" with
+      | [nn, w] => match nn.toNat?, w.toNat? with
+        | some nn, some w => let (s', n', out, st) := Src.copyLim s nn w; s!"{hx out}:{srcStName st}:{n'}" :: srcOps s' rest
+        | _, _ => ["bad-op"]
+      | _ => ["bad-op"]
+    | _ => ["bad-op"]
 
 def boolOf (s : String) : Bool := s = "1"
 
@@ -475,6 +507,14 @@ def handle (line : String) : String :=
       | .ok x =>
         let rs := seqCont LazyXz.read x lens 0  -- the model keeps no faithful state after an error of the xz reader (errors there are not sticky)
         " ".intercalate (rs.map (fun (o, st) => s!"{o.size}:" ++ sn st)) ++ " | " ++ hex (LazyDec.delivered rs)
+    | _, _ => "bad-op"
+  -- srcops <hex(data)|-> <fails 0/1> <together 0/1> <fragMode> <seed> op… → the accessors of Model/Src.lean (F<n> io.ReadFull,
+  -- B ReadByte, C<n> io.CopyN, L<N>/<want> the doubly limited copy) on a fragmenting source; per op bytes:status, then pos
+  | "srcops" :: h :: fl :: tg :: fm :: sd :: ops => match fm.toNat?, sd.toNat? with
+    | some fm, some sd =>
+      let s : Src.S := { data := if h = "-" then ByteArray.empty else unhex h, frag := srcFrag fm sd, together := boolOf tg,
+                         ends := if boolOf fl then .fail else .eof }
+      " ".intercalate (srcOps s ops)
     | _, _ => "bad-op"
   -- btcands <dictCap> <hex(history)> <hex(look ≤ 273)> → special:a:b of the Lean binary tree model
   | ["btcands", dc, h, l] => match dc.toNat? with
